@@ -1,14 +1,14 @@
-// verif-replay property=C12 harness=c12_x86_64_ranges src=linker-utils/src/x86_64.rs
+// verif-replay property=C12 harness=c12_x86_64_no_check_top_value src=linker-utils/src/x86_64.rs
 // failed checks: C12.x86_64 value accepted by both GNU ld and lld is accepted
 // solver counterexample values: 1 | 9223372036854775807ul | 255 | 254 | 255 | 255 | 0 | 0 | 0 | 0 | 254
-// replay: cd /verif && ./check --replay replays/C12/c12_x86_64_ranges.rs
+// replay: cd /verif && ./check --replay replays/C12/c12_x86_64_no_check_top_value.rs
 //    Compiling linker-utils v0.8.0 (/var/tmp/wild-verif/C12-replay/src/linker-utils)
 // test x86_64::verif_kani::kani_concrete_playback_c12_x86_64_ranges_9420322427907724118 ... FAILED
 // thread 'x86_64::verif_kani::kani_concrete_playback_c12_x86_64_ranges_9420322427907724118' (31926) panicked at linker-utils/src/x86_64.rs:475:13:
 // C12.x86_64 value accepted by both GNU ld and lld is accepted
 // test result: FAILED. 0 passed; 1 failed; 0 ignored; 0 measured; 8 filtered out; finished in 0.00s
 // C12.x86_64 value accepted by both GNU ld and lld is accepted
-/// Test generated for harness `x86_64::verif_kani::c12_x86_64_ranges` 
+/// Test generated for harness `x86_64::verif_kani::c12_x86_64_no_check_top_value` 
 ///
 /// Check for `assertion`: ""C12.x86_64 value accepted by both GNU ld and lld is accepted""
 ///
@@ -49,5 +49,5 @@ fn kani_concrete_playback_c12_x86_64_ranges_9420322427907724118() {
         // 254
         vec![254],
     ];
-    kani::concrete_playback_run(concrete_vals, c12_x86_64_ranges);
+    kani::concrete_playback_run(concrete_vals, c12_x86_64_no_check_top_value);
 }
